@@ -250,49 +250,68 @@ Definition finish_seq (s : state) (ok : bool) : list ev :=
       else [TaskFail]
   end.
 
-Definition elab (m : mode) (s : state) (o : oev) : option (list ev) :=
+(* [OClientGone c] is logged by the client before it closes its socket; the
+   server notices later.  While c's handler is running the step [ClientGone c]
+   is therefore deferred ([pend]) to the observation that shows the server
+   noticed — the handler future is dropped ([OHDropped c], CancelOnDisconnect)
+   — or made it irrelevant — the handler returned first ([OCompleted c]); at
+   the latest it is placed where shutdown finishes. *)
+Definition elab (m : mode) (s : state) (pend : list N) (o : oev) : option (list ev * list N) :=
   match o with
-  | OConn c => Some [Accept c]
+  | OConn c => Some ([Accept c], pend)
   | OEntered c =>
       match find (conns s) c with
-      | Some Idle => Some [ReqBegin c; Enter c]
-      | _ => Some [Enter c]
+      | Some Idle => Some ([ReqBegin c; Enter c], pend)
+      | _ => Some ([Enter c], pend)
       end
-  | OCompleted c => Some [Complete c]
+  | OCompleted c =>
+      if mem_id c pend then Some ([Complete c; ClientGone c], remove_id pend c)
+      else Some ([Complete c], pend)
   | OHDropped c =>
-      match m, find (conns s) c with
-      | CancelOnDisconnect, Some Closed => Some []   (* cancelled with its connection *)
-      | _, _ => None
+      match m with
+      | CancelOnDisconnect =>
+          (* cancelled with its connection *)
+          if mem_id c pend then Some ([ClientGone c], remove_id pend c) else None
+      | Detached => None
       end
   | ORespRead c true =>
       match find (conns s) c with
-      | Some Responding => Some [Deliver c]
-      | _ => if mem_id c (answered s) then Some [] else None
+      | Some Responding => Some ([Deliver c], pend)
+      | _ => if mem_id c (answered s) then Some ([], pend) else None
       end
-  | ORespRead c false => Some []
+  | ORespRead c false => Some ([], pend)
   | OClientGone c =>
       match find (conns s) c with
-      | Some Closed => Some []      (* the server had closed it already *)
-      | _ => Some [ClientGone c]
+      | Some Closed => Some ([], pend)      (* the server had closed it already *)
+      | Some (InRequest true) => Some ([], c :: pend)
+      | _ => Some ([ClientGone c], pend)
       end
-  | OSawEof _ => Some []
-  | OCloseCalled => Some [Signal]
-  | OCloseReturned ok => Some (finish_seq s ok ++ [Release 0 ok])
-  | OWaiter j ok => Some (finish_seq s ok ++ [Release j ok])
-  | OConnectAfter _ => Some []
+  | OSawEof _ => Some ([], pend)
+  | OCloseCalled => Some ([Signal], pend)
+  | OCloseReturned ok =>
+      match ph s with
+      | Finished _ => Some ([Release 0 ok], pend)
+      | _ => Some (map ClientGone pend ++ finish_seq s ok ++ [Release 0 ok], [])
+      end
+  | OWaiter j ok =>
+      match ph s with
+      | Finished _ => Some ([Release j ok], pend)
+      | _ => Some (map ClientGone pend ++ finish_seq s ok ++ [Release j ok], [])
+      end
+  | OConnectAfter _ => Some ([], pend)
   end.
 
-Fixpoint run_obs (m : mode) (s : state) (os : list oev) : option (state * list ev) :=
+Fixpoint run_obs (m : mode) (s : state) (pend : list N) (os : list oev) : option (state * list ev) :=
   match os with
   | [] => Some (s, [])
   | o :: os' =>
-      match elab m s o with
+      match elab m s pend o with
       | None => None
-      | Some ls =>
+      | Some (ls, pend') =>
           match run m s ls with
           | None => None
           | Some s' =>
-              match run_obs m s' os' with
+              match run_obs m s' pend' os' with
               | None => None
               | Some (s'', ls') => Some (s'', ls ++ ls')
               end
@@ -300,4 +319,4 @@ Fixpoint run_obs (m : mode) (s : state) (os : list oev) : option (state * list e
       end
   end.
 
-Definition replay_obs (m : mode) (os : list oev) : option (state * list ev) := run_obs m init os.
+Definition replay_obs (m : mode) (os : list oev) : option (state * list ev) := run_obs m init [] os.
